@@ -30,9 +30,9 @@ def beta0 (nf : K) : K := -B00 - B01 * nf
 /-- `beta(1, nf)` -/
 def beta1 (nf : K) : K := -B10 - B11 * nf
 /-- `beta(2, nf)` (hard-wired colour factors, six digits) -/
-def beta2 (nf : K) : K := -1428.50 + 279.611 * nf - 6.01852 * nf ^ (2:Nat)
+def beta2 (nf : K) : K := -1428.5 + 279.611 * nf - 6.01852 * nf ^ (2:Nat)
 /-- `beta(3, nf)` -/
-def beta3 (nf : K) : K := -29243.0 + 6946.30 * nf - 405.089 * nf ^ (2:Nat) - 1.49931 * nf ^ (3:Nat)
+def beta3 (nf : K) : K := -29243 + 6946.3 * nf - 405.089 * nf ^ (2:Nat) - 1.49931 * nf ^ (3:Nat)
 
 /-- `beta(p, nf)`; none = ValueError('NNNNLO not yet implemented') -/
 def beta (p : Int) (nf : K) : Option K :=
